@@ -168,6 +168,30 @@ class FixedList(P):
         return [p.concrete(m, x, ctx) for p, x in zip(self.elems, sym.items)]
 
 
+class EnumConst(P):
+    """a fixed member of a repository enum"""
+
+    def __init__(self, module: str, cls: str, member: str):
+        self.module, self.cls, self.member = module, cls, member
+
+    def make(self, I, name):
+        return SEnum(self.cls, self.member)
+
+    def concrete(self, m, sym, ctx):
+        return getattr(getattr(importlib.import_module(self.module), self.cls), self.member)
+
+
+class FixedTuple(P):
+    def __init__(self, *elems: P):
+        self.elems = elems
+
+    def make(self, I, name):
+        return STuple([p.make(I, f"{name}[{i}]") for i, p in enumerate(self.elems)])
+
+    def concrete(self, m, sym, ctx):
+        return tuple(p.concrete(m, x, ctx) for p, x in zip(self.elems, sym.items))
+
+
 class FixedDict(P):
     def __init__(self, **entries: P):
         self.entries = entries
@@ -198,10 +222,13 @@ class FunctionContract:
     inline_depth: int = 4
     timeout_ms: int = 20000
     tier: str = "P"
+    z3_first_ms: int | None = None  # string-heavy contracts: give z3 only this long, then cvc5 --strings-exp decides
+    step: Callable | None = None  # () -> loopstep.Step: verify this synthetic step function (a loop body of `qualname`) instead of the whole function
+    label: str = ""
 
     @property
     def key(self) -> str:
-        return f"{self.module}:{self.qualname}"
+        return f"{self.module}:{self.qualname}{self.label}"
 
 
 class Args:
@@ -236,10 +263,13 @@ class ContractReport:
     seconds: float = 0.0
 
 
+Z3_FIRST_MS: int | None = None  # when set (string-heavy contracts): z3 gets only this long before cvc5 is asked
+
+
 def _solve(assertions: list, timeout_ms: int) -> tuple[str, Any, str]:
     """returns (sat|unsat|unknown, model, backend)"""
     s = z3.Solver()
-    s.set("timeout", timeout_ms)
+    s.set("timeout", min(timeout_ms, Z3_FIRST_MS) if Z3_FIRST_MS else timeout_ms)
     s.add(*assertions)
     r = s.check()
     if r == z3.unsat:
@@ -261,11 +291,84 @@ def _solve(assertions: list, timeout_ms: int) -> tuple[str, Any, str]:
             out = p.stdout.strip().splitlines()[:1]
             if out and out[0] == "unsat":
                 return "unsat", None, "cvc5"
+            if out and out[0] == "sat":
+                # cvc5 found the VC falsifiable: fetch its values for the free constants and let z3
+                # rebuild a model around them (z3 models are what the concretiser reads)
+                m = _model_via_cvc5(s, smt, timeout_ms)
+                return "sat", m, "cvc5" if m is None else "cvc5+z3"
         finally:
             os.unlink(path)
     except Exception:
         pass
+    import os as _os
+
+    if _os.environ.get("PYVC_DUMP"):
+        import hashlib
+
+        smt = s.to_smt2()
+        with open(_os.path.join(_os.environ["PYVC_DUMP"], "unknown_" + hashlib.sha1(smt.encode()).hexdigest()[:10] + ".smt2"), "w") as f:
+            f.write("(set-logic ALL)\n" + smt)
     return "unknown", None, "z3+cvc5"
+
+
+def _model_via_cvc5(solver: z3.Solver, smt: str, timeout_ms: int):
+    import os
+    import re
+    import subprocess
+    import tempfile
+
+    with tempfile.NamedTemporaryFile("w", suffix=".smt2", delete=False) as f:
+        f.write("(set-option :produce-models true)\n(set-logic ALL)\n" + smt + "\n(get-model)\n")
+        path = f.name
+    try:
+        p = subprocess.run(["cvc5", "--strings-exp", f"--tlimit={timeout_ms}", path], capture_output=True, text=True, timeout=timeout_ms / 1000 + 5)
+    except Exception:
+        return None
+    finally:
+        os.unlink(path)
+    vals: dict[str, Any] = {}
+    for mm in re.finditer(r'\(define-fun (\|[^|]*\||\S+) \(\) (String|Int|Bool) ("(?:[^"]|"")*"|\(- \d+\)|-?\d+|true|false)\)', p.stdout):
+        name, sort, raw = mm.group(1).strip("|"), mm.group(2), mm.group(3)
+        if sort == "String":
+            txt = raw[1:-1].replace('""', '"')
+            txt = re.sub(r"\\u\{([0-9a-fA-F]+)\}", lambda u: chr(int(u.group(1), 16)), txt)
+            vals[name] = z3.StringVal(txt)
+        elif sort == "Int":
+            vals[name] = z3.IntVal(int(raw.replace("(- ", "-").rstrip(")")))
+        else:
+            vals[name] = z3.BoolVal(raw == "true")
+    if not vals:
+        return None
+    s2 = z3.Solver()
+    s2.set("timeout", 10000)
+    s2.add(*solver.assertions())
+    consts = {}
+    for a in solver.assertions():
+        for d in _consts(a):
+            consts[d.decl().name()] = d
+    for n, v in vals.items():
+        c = consts.get(n)
+        if c is not None and c.sort() == v.sort():
+            s2.add(c == v)
+    return s2.model() if s2.check() == z3.sat else None
+
+
+def _consts(e, seen=None):
+    seen = seen if seen is not None else set()
+    out = []
+    stack = [e]
+    while stack:
+        x = stack.pop()
+        if x.get_id() in seen:
+            continue
+        seen.add(x.get_id())
+        if z3.is_const(x) and x.decl().kind() == z3.Z3_OP_UNINTERPRETED:
+            out.append(x)
+        if z3.is_app(x):
+            stack.extend(x.children())
+        elif z3.is_quantifier(x):
+            stack.append(x.body())
+    return out
 
 
 def to_bool_term(x: Any) -> z3.ExprRef:
@@ -275,6 +378,15 @@ def to_bool_term(x: Any) -> z3.ExprRef:
 
 
 def verify_contract(c: FunctionContract, replay: bool = True) -> ContractReport:
+    global Z3_FIRST_MS
+    Z3_FIRST_MS = c.z3_first_ms
+    try:
+        return _verify_contract(c, replay)
+    finally:
+        Z3_FIRST_MS = None
+
+
+def _verify_contract(c: FunctionContract, replay: bool = True) -> ContractReport:
     t0 = time.time()
     I = Interp(contracts=dict(c.callee_contracts), inline_depth=c.inline_depth)
     if c.setup:
@@ -294,7 +406,17 @@ def verify_contract(c: FunctionContract, replay: bool = True) -> ContractReport:
 
     old = Args(_clone(sym, {}))
     try:
-        paths = I.run_function(c.module, c.qualname, dict(sym), st)
+        if c.step is not None:
+            try:
+                stepdef = c.step()
+            except extract.ExtractionError as e:
+                return ContractReport(c.key, [], 0, outside=f"contract no longer matches the source: {e}")
+            missing = [x for x in stepdef.params + stepdef.targets if x not in sym]
+            if missing:
+                return ContractReport(c.key, [], 0, outside=f"contract no longer matches the source: the loop body now carries {missing}, which the contract does not describe")
+            paths = I.run_function(c.module, c.qualname, {k: sym[k] for k in stepdef.params + stepdef.targets}, st, fndef=stepdef.fndef)
+        else:
+            paths = I.run_function(c.module, c.qualname, dict(sym), st)
     except OutsideSubset as e:
         return ContractReport(c.key, [], I.npaths, outside=f"outside reach: {e}", inlined=sorted(I.inlined), opaque=sorted(I.opaque_calls), seconds=time.time() - t0)
     base = list(I.base_assumptions)
@@ -373,6 +495,8 @@ def _elem(c, I, name, r, m, be, t1, sym, a, p, post, replay, raised=None, exc_ex
         return Elementary(name, "discharged", be, dt)
     if r == "unknown":
         return Elementary(name, "unknown", be, dt, "solver returned unknown on both back ends")
+    if m is None:
+        return Elementary(name, "refuted", be, dt, "cvc5 found the verification condition falsifiable; no model could be transferred for replay")
     # counter-model: concretise and replay on the real function
     detail = f"counter-model found ({'raises ' + raised.cls + ' ' + raised.note if raised else 'postcondition false'})"
     e = Elementary(name, "refuted", be, dt, detail)
@@ -400,6 +524,13 @@ def _short(v: Any) -> Any:
 
 
 def real_function(c: FunctionContract):
+    if c.step is not None:
+        from verif.pyvc import loopstep
+
+        stepdef = c.step()
+        f = loopstep.compile_step(c.module, stepdef)
+        names = stepdef.params + stepdef.targets
+        return lambda **kw: f(**{k: kw[k] for k in names})
     mod = importlib.import_module(c.module)
     o: Any = mod
     for part in c.qualname.split("."):
